@@ -303,6 +303,11 @@ func (b *builder) buildRule(ev *Event, ruleID string, depth int) *ProofNode {
 				partial = true
 				continue
 			}
+			if sub[0].Partial {
+				// As in the post-hoc explainer, a proof with a partial
+				// sub-proof is itself partial.
+				partial = true
+			}
 			premiseProofs = append(premiseProofs, sub[0])
 		case ast.NegAtom:
 			// Closed-world absence check.
